@@ -127,7 +127,7 @@ func (m *Packet) BodyToString() string {
 	case []byte:
 		return string(v)
 	case int64:
-		return strconv.FormatInt(v, 64)
+		return strconv.FormatInt(v, 10)
 	case float64:
 		return strconv.FormatFloat(v, 'g', -1, 64)
 	case proto.Message:
